@@ -1,7 +1,7 @@
 """S rules: sharding (routing, hash, aggregates, argument pass-through)."""
 import ast
 
-from .framework import rule, Ob, fmt_trace, sql_events, call_events, values_in
+from .framework import rule, Ob, fmt_trace, sql_events, call_events, values_in, deep_values
 from .model import AnalysisError, walk_shallow, dotted
 from .values import V
 
@@ -168,7 +168,7 @@ def s4(ctx):
             src = ast.unparse(it)
             iters.append((src, n))
         shard_iters = [(s, n) for s, n in iters if '_shards' in s]
-        ok = len(shard_iters) == 1 and shard_iters[0][0] in ('self._shards', 'reversed(self._shards)')
+        ok = len(shard_iters) == 1 and shard_iters[0][0] in ('self._shards', 'reversed(self._shards)', 'self._shards[::-1]')
         why = 'iterates %s' % [s for s, _ in shard_iters]
         if ok:
             node0 = shard_iters[0][1]
@@ -210,19 +210,34 @@ def s4(ctx):
         obs.append(Ob('S4', 'FanoutCache.%s/all-shards' % name, ok,
                       'aggregate %s does not iterate exactly self._shards (%s): some shard is skipped or visited twice'
                       % (name, why), f.loc()))
-    # combination: sum / chain / reduce / running total
-    def src(name):
-        return ast.unparse(ctx.method('FanoutCache', name).node)
-    comb = {
-        '__len__': lambda s: 'sum(' in s, 'volume': lambda s: 'sum(' in s,
-        'stats': lambda s: s.count('sum(') >= 2,
-        '__iter__': lambda s: 'chain' in s, '__reversed__': lambda s: 'chain' in s and s.count('reversed(') >= 2,
-        'check': lambda s: 'reduce' in s or 'extend' in s or '+=' in s,
-    }
-    for name, pred in comb.items():
-        obs.append(Ob('S4', 'FanoutCache.%s/combines' % name, pred(src(name)),
-                      'per-shard results of %s are not combined (sum/chain/reduce)' % name,
-                      ctx.method('FanoutCache', name).loc()))
+    # combination: the result depends on the per-shard call of the (abstract) iteration
+    per_shard = {'__len__': '__len__', 'volume': 'volume', 'stats': 'stats', '__iter__': '__iter__',
+                 '__reversed__': '__reversed__', 'check': 'check'}
+    for name, callee in per_shard.items():
+        f = ctx.method('FanoutCache', name)
+        ok, n = True, 0
+        for p in ctx.paths(f, 'plain'):
+            if p.kind != 'return':
+                continue
+            calls = [e for e in p.trace if e.kind == 'CALL' and e.d['targets'][0].cls == 'Cache'
+                     and e.d['targets'][0].name == callee]
+            if not calls:
+                if any(e.kind == 'FOR' and e.d['it'] == 0 for e in p.trace):
+                    continue      # no shards
+                ok = False
+                continue
+            n += 1
+            rets = {('ret', c.seq) for c in calls}
+            have = {(x.k, x.a[0]) for x in deep_values(p.outcome[1], p.trace) if x.k == 'ret'}
+            if not rets <= have:
+                ok = False
+        if name == '__reversed__':
+            src_ = ast.unparse(f.node)
+            if not ('reversed(self._shards)' in src_ or 'self._shards[::-1]' in src_):
+                ok = False
+        obs.append(Ob('S4', 'FanoutCache.%s/combines' % name, ok and n > 0,
+                      'the result of %s does not depend on the per-shard %s of every shard (for __reversed__: shards '
+                      'in reverse order, each reversed)' % (name, callee), f.loc()))
     # _remove: adds timeout.args[0] and retries the same shard
     f = ctx.method('FanoutCache', '_remove')
     ok = False
